@@ -4,7 +4,13 @@ and by the clone under the option that prints the structure the writer builds.
 Nothing is computed here: a source names a specification module + configuration, how its emitted lines are put together (the
 function of the owning driver is imported), which option(s) dump the structure, and the envelope predicate (a reason string when
 a case is outside what both tools support).  DWARF-level writers emit section contents only; those are handed to
-spec/ReadelfEnvelope.tla, which puts them into an ELF container with the specification's own ELF writer (Elf!Chunks)."""
+spec/ReadelfEnvelope.tla, which puts them into an ELF container with the specification's own ELF writer (Elf!Chunks).
+
+Sources of C18's own (no other property builds these structures inside the envelope of a whole-file dump): 'dumps'
+(spec/ReadelfEnvelopeS.tla: sections for -x / -p), 'relocenv' (spec/ReadelfEnvelopeR.tla: the Reloc writer's tables with named
+symbols, for -r), 'exprctx' (spec/ReadelfEnvelopeE.tla: expressions in mixed unit contexts).  A source may also emit SEQUENCES
+(cases with a 'seq' list of image keys): the images of a sequence are dumped one after the other by one process - the job's path is
+the paths joined by '|' (c18._one)."""
 import json
 import os
 import re
@@ -16,7 +22,7 @@ from .elfutil import concretise
 
 
 class Source:
-    def __init__(self, name, module, cfgs, read, options, sample=(120, 1500), envelope=None, tlc=None, wrap=False):
+    def __init__(self, name, module, cfgs, read, options, sample=(120, 1500), envelope=None, tlc=None, wrap=False, seqs=(0, 0)):
         self.name = name
         self.module = module
         self.cfgs = cfgs              # {'quick': [cfg...], 'thorough': [cfg...]}
@@ -26,9 +32,23 @@ class Source:
         self.envelope = envelope      # case -> None | reason (outside the envelope)
         self.tlc = tlc or {}
         self.wrap = wrap
+        self.seqs = seqs              # sequences of dumps by one process (cases with a 'seq' list of image keys) per tier
 
 
 # ------------------------------------------------------------------ readers (assembly functions of the owning drivers)
+class _OneCase:
+    """A run whose cases() yields one given case (see Sweep._source)."""
+
+    def __init__(self, run, case):
+        self._run, self._case = run, case
+
+    def cases(self, path):
+        yield self._case
+
+    def __getattr__(self, k):
+        return getattr(self._run, k)
+
+
 def _read_parts(run, path):
     """Cases of the ReadelfEnvelope* modules: one line per chunk piece [k: case key, n: pieces, i, tag, v: chunk] (lines stay
     below the 8 KB a CSVWrite appends atomically)."""
@@ -433,6 +453,34 @@ def _env_line(c):
     return None
 
 
+def _read_exprctx(run, path):
+    """ReadelfEnvelopeE.tla: .debug_info sections whose units have different contexts (version, DWARF format, address size), and
+    sequences of single-unit files that one process dumps one after the other ('seq': the keys of the files)."""
+    for c in run.cases(path):
+        if c['mode'] == 'seq':
+            yield {'tag': c['tag'], 'skey': '%s/%s' % (c['tag'], '|'.join(c['keys'])), 'seq': c['keys']}
+        else:
+            yield {'tag': c['tag'], 'skey': '%s/%s' % (c['tag'], c['key']), 'key': c['key'], 'rank': 0 if len(c['units']) == 1 else 1,
+                   'cls': c['cls'], 'le': c['le'], 'machine': c['machine'], 'secs': _secs(info=c['info'], abbrev=c['abbrev'])}
+
+
+def _read_relocenv(run, path):
+    """ReadelfEnvelopeR.tla: the class of a case is configuration / flavour / (negative addend with a symbol) / (entry without symbol)."""
+    for c in _read_parts(run, path):
+        c['skey'] = '%s/%s' % (c['tag'], c['key'])
+        c['rank'] = 0 if 'neg' in c['tag'] else 1
+        yield c
+
+
+def _read_dumps(run, path):
+    """ReadelfEnvelopeS.tla: sections for the hex / string dumps; the class of a case is the structure the specification computes."""
+    for c in run.cases(path):
+        # (hex mode: every case is its own sampling class; strings mode: the classes are the tags, each gets the same share of the sample)
+        yield {'tag': '%s/%s' % (c['mode'], c['tag']), 'rank': 0 if c['mode'] == 'hex' else 1, 'mode': c['mode'], 'opts': c['opts'],
+               'bytes': c['bytes'][:64], 'strs': c['strs'][:8], 'chunks': c['chunks'],
+               **({'skey': 'hex/%s/%d%s/%d/%s' % (c['tag'], c['cls'], 'le' if c['le'] else 'be', c['n'], core.digest(c['chunks']))} if c['mode'] == 'hex' else {})}
+
+
 # writers whose images were tried and are outside the envelope altogether (kept here so that the evidence says so)
 NOT_OFFERED = {
     'LocRange.tla (C07) -> --debug-dump=loc / Ranges':
@@ -446,6 +494,8 @@ NOT_OFFERED = {
 
 SOURCES = [
     # (longest TLC runs first: the threads take their worker slots in this order)
+    Source('dumps', 'ReadelfEnvelopeS', {'quick': ['ReadelfEnvelopeS_quick'], 'thorough': ['ReadelfEnvelopeS_thorough']}, _read_dumps,
+           lambda c: c['opts'], sample=(900, 4000)),
     Source('die', 'DieTree', {'quick': ['ReadelfEnvelope_DieTree|DieTree_quick'], 'thorough': ['DieTree_quick']}, _read_die,
            ['--debug-dump=info'], sample=(500, 2000), wrap=True, envelope=_env_die),
     Source('cfi', 'CFI', {'quick': ['CFI_scan_quick', 'CFI_prog1_quick'], 'thorough': ['CFI_scan_quick', 'CFI_prog1_quick', 'CFI_prog3_quick']}, _read_cfi,
@@ -461,6 +511,10 @@ SOURCES = [
            sample=(300, 1500), tlc={'env': {'JAVA_TOOL_OPTIONS': '-Xss32m'}}, envelope=_env_dynamic),
     Source('symbols', 'SymHash', {'quick': ['SymHash_tiny', 'SymHash_fields@1'], 'thorough': ['SymHash_quick', 'SymHash_fields@1']}, _read_symhash,
            ['-s'], sample=(150, 1000), tlc={'env': {'JAVA_TOOL_OPTIONS': '-Xss32m'}}, envelope=_env_symhash),
+    Source('exprctx', 'ReadelfEnvelopeE', {'quick': ['ReadelfEnvelopeE_quick'], 'thorough': ['ReadelfEnvelopeE_thorough']}, _read_exprctx,
+           ['--debug-dump=info'], sample=(300, 700), wrap=True, seqs=(400, 1500)),
+    Source('relocenv', 'ReadelfEnvelopeR', {'quick': ['ReadelfEnvelopeR_quick'], 'thorough': ['ReadelfEnvelopeR_quick']}, _read_relocenv, ['-r'],
+           sample=(1300, 1300)),
     Source('reloc', 'Reloc', {'quick': ['ReadelfEnvelope_Reloc|Reloc_quick'], 'thorough': ['Reloc_quick']}, _read_reloc, ['-r'], sample=(300, 1500), envelope=_env_reloc),
 ]
 
@@ -570,7 +624,20 @@ class Sweep:
                         raise
                     self.run.notes.append('%s: configuration %s is out of date (%s); %s used instead' % (src.name, mine, str(ex).strip().splitlines()[-1][:120], theirs))
                     res = self._tlc(src.module, theirs, **kw)
-                cases += list(src.read(self.run, res.out))
+                try:
+                    cases += list(src.read(self.run, res.out))
+                except (KeyError, TypeError, IndexError):
+                    # the other property's module has gained a kind of case this reader does not know (the modules belong to their
+                    # properties' builders): read case by case and leave those out, counted
+                    skipped = 0
+                    for one in self.run.cases(res.out):
+                        try:
+                            cases += list(src.read(_OneCase(self.run, one), res.out))
+                        except (KeyError, TypeError, IndexError):
+                            skipped += 1
+                    self.run.notes.append('%s: %d emitted cases of %s/%s are of a kind this sweep does not read (left out)' % (src.name, skipped, src.module, mine))
+            seqs = [c for c in cases if 'seq' in c]
+            cases = [c for c in cases if 'seq' not in c]
             outside, inside = {}, []
             for c in cases:
                 why = src.envelope(c) if src.envelope else None
@@ -581,7 +648,7 @@ class Sweep:
             chosen = pick(inside, n)
             if src.wrap and chosen:
                 self._wrap(src, chosen)
-            self.result[src.name] = (len(cases), outside, len(inside), chosen)
+            self.result[src.name] = (len(cases), outside, len(inside), chosen, pick(seqs, src.seqs[0 if self.run.tier == 'quick' else 1]) if seqs else [])
         except BaseException as ex:       # noqa  (re-raised in the main thread)
             self.result[src.name] = ex
 
@@ -611,20 +678,33 @@ class Sweep:
             r = self.result[s.name]
             if isinstance(r, BaseException):
                 raise r
-            emitted, outside, inside, chosen = r
+            emitted, outside, inside, chosen, seqs = r
             if not emitted:
                 raise core.MachineryError('writer source %s emitted no case' % s.name)
             st = {'emitted': emitted, 'outside_by_predicate': outside, 'inside_predicate': inside, 'images': len(chosen), 'offered': 0,
                   'classes': len({c['tag'] for c in chosen})}
+            by_key = {}
             for i, c in enumerate(chosen):
                 path = os.path.join(self.tmpd, 'w_%s_%05d.elf' % (s.name, i))
                 with open(path, 'wb') as f:
                     f.write(concretise(c['chunks']))
+                by_key[c.get('key')] = (path, c)
                 for o in (s.options(c) if callable(s.options) else s.options):
                     name = '%s#%s#%d' % (s.name, c['tag'], i)
                     jobs.append(('writer', name, o, path))
                     meta[(name, o)] = c
                     st['offered'] += 1
+            # sequences: the files of a sequence are dumped one after the other by one process (c18._one: paths joined by '|')
+            for i, q in enumerate(seqs):
+                if any(k not in by_key for k in q['seq']):
+                    raise core.MachineryError('a sequence of %s names an image that was not written: %s' % (s.name, q['seq']))
+                for o in s.options:
+                    name = '%s#%s#s%d' % (s.name, q['tag'], i)
+                    jobs.append(('writer', name, o, '|'.join(by_key[k][0] for k in q['seq'])))
+                    meta[(name, o)] = dict(by_key[q['seq'][-1]][1], seq=q['seq'])
+                    st['offered'] += 1
+            if seqs:
+                st['sequences'] = len(seqs)
             stats[s.name] = st
         return jobs, stats, meta
 
